@@ -384,15 +384,18 @@ def main():
         e = gen.enumerated(prop)
         if e:
             enum_desc, enum_cases = e
+    corpus_cli = [c for c in corpus if c.startswith("cliop ")]       # witnesses that live in the command-line glue
+    corpus = [c for c in corpus if not c.startswith("cliop ")]
     cases = corpus + enum_cases + gen_cases
     t1 = time.time()
     results = run_cases(build, driver, cases, cfg.get("timeout", 10))
     timing["cases_s"] = round(time.time() - t1, 1)
 
     # a slice of the cases goes through the real `vata` binary (glue: option parsing, dictionaries, sanitising, simulation set-up)
-    if cfg.get("cli") and not args.n:
-        ncli = cfg["cli"][tier]
-        cli_cases = gen.generate(cfg["cli"]["kinds"], ncli, seed * 7919 + 13)
+    if (cfg.get("cli") and not args.n) or corpus_cli:
+        cli_cases = list(corpus_cli)
+        if cfg.get("cli") and not args.n:
+            cli_cases += gen.generate(cfg["cli"]["kinds"], cfg["cli"][tier], seed * 7919 + 13)
         t1 = time.time()
         results += run_cli(build, driver, cli_cases)
         timing["cli_s"] = round(time.time() - t1, 1)
